@@ -802,7 +802,18 @@ def run_cb_v1(case, ctx) -> None:
         cb = CertBlockV1(build_number=build)
         for i, der in enumerate(certs_der):
             cb.add_certificate(der if i % 2 == 0 else Certificate.parse(der))
-        for idx, km in enumerate(kms):
+        # the table is what the LAST write of every slot left: slots are written in any order, and a slot may first get
+        # another key's hash that a later call replaces (history independence of the table / the RKTH)
+        writes = [(idx, km) for idx, km in enumerate(kms)]
+        history = rng.choice(["ascending", "shuffled", "rewritten"])
+        if history != "ascending":
+            rng.shuffle(writes)
+        if history == "rewritten":
+            decoys = [(rng.randrange(len(kms)), rng.choice(kms)) for _ in range(rng.randrange(1, 4))]
+            writes = decoys + writes
+        detail["history"] = [i for i, _ in writes]
+        ctx.count(f"cb_v1_history/{history}")
+        for idx, km in writes:
             how = rng.randrange(3)
             if how == 0:
                 cb.set_root_key_hash(idx, Certificate.load(km.files[core.pick(rng, ["ca.pem", "ca.der", "nonca.pem", "nonca.der"])]))
